@@ -6,6 +6,7 @@
      irredundant cs := no zero cube, NoDup, strictly increasing for cube_cmp, and no cube implies another one *)
 From Coq Require Import List NArith Bool Sorted.
 From V Require Import Spec.TwoLevelCost Checkers.Check Proofs.CheckSoundTwoLevel Proofs.CheckSoundCube.   (* the extracted checkers and their soundness proofs, pinned at the end of this file *)
+From V Require Proofs.ExprsTie4.   (* the bodies of sop.rs / esop.rs / soes.rs (and the remaining functions of cube.rs / ecube.rs), regenerated from the Rust source, equal the model's *)
 From V Require Import Proofs.Order.
 From V Require Import Base.Res Model.Kernels Model.TwoLevel Spec.Bfun Proofs.SopProofs.
 Import ListNotations.
